@@ -130,8 +130,12 @@ void wrap_lines(util::StringPiece const &line, wrap_options const &options, std:
 			pos_first_delimiter = pos;
 		}
 
+		// A code point that does not fit in the current line any more starts the
+		// next one, unless it is the only one on the line.
+		if (pos - pos_last_cut > options.column_width && pos - char_len > pos_last_cut)
+			pos -= char_len;
 		// Do we need to introduce a break? If not, move to next character
-		if (pos - pos_last_cut < options.column_width)
+		else if (pos - pos_last_cut < options.column_width)
 			continue;
 
 		// Last resort if we didn't break on a delimiter: just chop where we are
@@ -158,6 +162,8 @@ void wrap_lines(util::StringPiece const &line, wrap_options const &options, std:
 				break;
 
       character = util::DecodeUTF8(line.data() + pos_next, line.end(), &char_len);
+			if (options.keep_delimiters_in_lines && pos_next + char_len - pos_last_cut > options.column_width)
+				break;
       pos_next += char_len;
 
 			// First character after pos_cut is probably a delimiter, unless
